@@ -12,7 +12,7 @@ func init() {
 		technique: "typestate-style guard dominance on the CFG (edge facts), field write tables with value shapes, who-may-call confinement and type-switch coverage over the producer and consumer controllers",
 		explanation: "Decides the structural safety skeleton of the reliable-delivery protocol: CONSUMER (1) a Delivery is created only in deliverFrame, reached only through deliver/assemble, which are called only on edges where nothing is in flight and the message (or the head of the buffer) carries exactly expectedSeq; (2) expectedSeq changes only on session adoption (to the acked NextSeq) and on a Confirmed that matches the in-flight delivery's session, MessageID and sequence, where it becomes inFlight.Seq()+1; inFlight is set only to the freshly built Delivery and cleared only by those two events; (3) the only re-presentation is the tick re-telling the in-flight delivery while it is non-nil; every Request/Ack carries confirmedSeq; a RegistrationAck announces confirmedSeq+1. PRODUCER (4) sequences are assigned contiguously: every store proposes currentSeq+1, currentSeq is written only from the store result / prepared chunk run, and each append to the unconfirmed buffer is paired with that write; (5) entries leave the unconfirmed buffer only in advanceConfirmed, as the prefix whose Seq ≤ the confirmation, and a confirmation is applied only from the authenticated consumer after the range check ConfirmedSeq ≤ currentSeq; (6) resend happens only for timeout requests and goes through the demand-checked emitter (C43); (7) both Receive switches dispatch every protocol message type. Eventual confirmation and the behaviour over all loss/duplication/reordering histories (liveness, and that these guards compose into a gap-free order) are NOT decided.",
 		assumptions: []string{"actor turn atomicity", "timers eventually fire (liveness)", "the composition of the guards into an inductive invariant over message histories"},
-		minObl:     45,
+		minObl:     56,
 		run:        runC42,
 	})
 }
